@@ -177,6 +177,12 @@ func c06DepthInput(shape string, n int) []byte {
 		sb.WriteString(strings.Repeat("OR ", n) + "ALL" + strings.Repeat(" ALL", n))
 	case "notparen":
 		sb.WriteString(strings.Repeat("NOT (", n) + "ALL" + strings.Repeat(")", n))
+	case "notlistnot": // n NOTs, one list, n more NOTs: the two limits must not multiply
+		sb.WriteString(strings.Repeat("NOT ", n) + "(" + strings.Repeat("NOT ", n) + "ALL)")
+	case "orlistor":
+		sb.WriteString(strings.Repeat("OR ALL ", n) + "(" + strings.Repeat("OR ALL ", n) + "ALL)")
+	case "notlists": // 3 lists, n NOTs in front of and inside each
+		sb.WriteString(strings.Repeat(strings.Repeat("NOT ", n)+"(", 3) + strings.Repeat("NOT ", n) + "ALL)))")
 	}
 	sb.WriteString("\r\n")
 	return []byte(sb.String())
@@ -302,6 +308,14 @@ func genC06(e *emitter, tier string, seed uint64) {
 		for _, n := range []int{999, 1000, 1001, 100000} {
 			reqs = append(reqs, fmt.Sprintf("%s %d", shape, n))
 		}
+	}
+	for _, shape := range []string{"notlistnot", "orlistor"} {
+		for _, n := range []int{499, 500, 501, 700, 999} {
+			reqs = append(reqs, fmt.Sprintf("%s %d", shape, n))
+		}
+	}
+	for _, n := range []int{249, 250, 251, 400, 999} {
+		reqs = append(reqs, fmt.Sprintf("notlists %d", n))
 	}
 	wp := &workerPool{name: "c06depth", timeout: 60 * time.Second}
 	for i, ans := range wp.run(reqs) {
